@@ -17,17 +17,20 @@ def find_state_change_intervals(
     equals: Callable,
     step=60,
 ) -> Generator:
+    succ_level = head
     succ_value = get(head)
     logger.debug('%s at head %s', succ_value, head)
 
-    for level in range(head - step, last, -step):
+    # the last sampled level is always `last` itself, so changes right after it are not missed
+    for level in [*range(head - step, last, -step), last]:
         value = get(level)
         logger.debug('%s at level %s', value, level)
 
         if not equals(value, succ_value):
-            logger.debug('%s -> %s at (%s, %s)', value, succ_value, level, level + step)
-            yield level + step, succ_value, level, value
+            logger.debug('%s -> %s at (%s, %s)', value, succ_value, level, succ_level)
+            yield succ_level, succ_value, level, value
             succ_value = value
+        succ_level = level
 
 
 def find_state_change(
